@@ -1620,6 +1620,7 @@ private:
       // Since the error has already been handled in _populate_formatted_log_message,
       // there is no additional action required here.
     }
+    QUILL_CATCH_ALL() {}
 #endif
   }
 
@@ -1649,6 +1650,19 @@ private:
         fmtquill::format(R"([Could not format log statement. message: "{}", location: "{}", error: "{}"])",
                          transit_event->macro_metadata->message_format(),
                          transit_event->macro_metadata->short_source_location(), e.what());
+
+      transit_event->formatted_msg->append(error);
+      _options.error_notifier(error);
+    }
+    QUILL_CATCH_ALL()
+    {
+      // a user defined formatter can throw anything. If it escaped from here the statement would
+      // never be consumed from the queue and would be decoded again on every poll
+      transit_event->formatted_msg->clear();
+      std::string const error =
+        fmtquill::format(R"([Could not format log statement. message: "{}", location: "{}", error: "{}"])",
+                         transit_event->macro_metadata->message_format(),
+                         transit_event->macro_metadata->short_source_location(), "unknown exception");
 
       transit_event->formatted_msg->append(error);
       _options.error_notifier(error);
